@@ -33,7 +33,7 @@ def close(a, b, tol=TOL):
     return abs(a - b) <= tol * (1 + abs(b))
 
 
-HISTORIES = ["plain", "plain", "two_steps_aux_var", "sorted", "reversed", "copy", "pickle", "readd_first", "context_edit"]
+HISTORIES = ["plain", "plain", "two_steps_aux_var", "sorted", "reversed", "copy", "pickle", "readd_first", "context_edit", "rejected_edits", "rejected_edits"]
 
 
 def build_with_history(spec, history):
@@ -78,6 +78,28 @@ def build_with_history(spec, history):
         with m:
             m.reactions[0].bounds = (0, 0)
             m.slim_optimize()
+    elif history == "rejected_edits":
+        # assignments the model refuses must leave nothing behind
+        import math as _m
+        for R in list(m.reactions)[:3]:
+            for attr, val in (("lower_bound", R.upper_bound + 7 if _m.isfinite(R.upper_bound) else None),
+                              ("upper_bound", R.lower_bound - 7 if _m.isfinite(R.lower_bound) else None)):
+                if val is None:
+                    continue
+                try:
+                    setattr(R, attr, val)
+                except ValueError:
+                    pass
+            try:
+                R.bounds = (5, -5)
+            except ValueError:
+                pass
+        m.slim_optimize()
+        # a valid edit of the other bound afterwards, and back
+        R = m.reactions[0]
+        lb, ub = R.bounds
+        R.upper_bound = ub
+        R.lower_bound = lb
     return m
 
 
@@ -87,7 +109,11 @@ def check_instance(spec, truth, interface, history="plain"):
     (n, vb, rows, c), rids, mids, sign = fbagen.net_lp(spec)
     with warnings.catch_warnings():
         warnings.simplefilter("ignore")
-        m = build_with_history(spec, history)
+        try:
+            m = build_with_history(spec, history)
+        except Exception as e:
+            # every step of a history is a valid public call (rejected assignments are caught inside): a raise here is the code's doing
+            return [f"a valid edit in the build history '{history}' raised {type(e).__name__}: {str(e)[:200]}"]
         if interface != "glpk":
             m.solver = interface
         before = canon.content_dump(m)
@@ -166,9 +192,14 @@ def check_instance(spec, truth, interface, history="plain"):
             sv = m.slim_optimize()
             if not (isinstance(sv, float) and math.isnan(sv)):
                 fails.append(f"slim_optimize() on a {truth['status']} problem returned {sv} instead of nan")
-            sv = m.slim_optimize(error_value=-7.5)
-            if sv != -7.5:
-                fails.append(f"slim_optimize(error_value=-7.5) returned {sv}")
+            for ev in (-7.5, 0, 0.0, float("inf"), False):
+                try:
+                    sv = m.slim_optimize(error_value=ev)
+                except Exception as e:
+                    fails.append(f"slim_optimize(error_value={ev!r}) raised {type(e).__name__} instead of returning the value")
+                    continue
+                if sv != ev:
+                    fails.append(f"slim_optimize(error_value={ev!r}) returned {sv}")
             st = m.solver.status
             want = OPTLANG_TO_EXCEPTIONS_DICT.get(st, OptimizationError)
             try:
